@@ -158,7 +158,8 @@ func VH_C12_exchange(n int) {
 	// known finding K1 (raw msgpack in the cookie): a value byte that the cookie splitter treats
 	// specially (';', space, '"') truncates the value even at the API level
 	special := false
-	isSpecial := func(c byte) bool { return vOr(c == ';', vOr(c == ' ', c == '"')) }
+	// (CR and LF are replaced by a space when the cookie is written, see the header-injection fix)
+	isSpecial := func(c byte) bool { return vOr(vOr(c == ';', vOr(c == ' ', c == '"')), vOr(c == '\r', c == '\n')) }
 	for _, m := range sent {
 		special = vOr(special, isSpecial(m.level))
 		for i := 0; i < len(m.key); i++ {
